@@ -177,12 +177,17 @@ extern "C" void harness_inflate_d() {
   PathsD res = InflatePaths(in, delta, (JoinType)jt, (EndType)et, ml, prec, at);
   const double scale = P10[prec + 8];
   VA(R.n_off_add == 1 && R.n_off_exec == 1 && R.off_jt == jt && R.off_et == et);
-  VA(R.off_in_x == (int64_t)std::round(x * scale) && R.off_in_y == (int64_t)std::round(y * scale));
-  VA(same_double(R.off_delta, delta * scale));           // delta scaled like the coordinates
-  VA(same_double(R.off_arc, at * scale));                // arc tolerance scaled alike
+#ifndef IPART     // IPART selects one group of value equalities per obligation (each is a floating-point product compared with its twin)
+#define IPART 7
+#endif
+  if (IPART & 1) VA(R.off_in_x == (int64_t)std::round(x * scale) && R.off_in_y == (int64_t)std::round(y * scale));
+  if (IPART & 2) {
+    VA(same_double(R.off_delta, delta * scale));           // delta scaled like the coordinates
+    VA(same_double(R.off_arc, at * scale));                // arc tolerance scaled alike
+  }
   VA(same_double(R.off_miter, ml));                      // miter limit is a ratio: unscaled
   VA(res.size() == 1 && res[0].size() == 3);
-  VA(same_double(res[0][0].x, (double)R.out_x * (1 / scale)) && same_double(res[0][0].y, (double)R.out_y * (1 / scale)));
+  if (IPART & 4) VA(same_double(res[0][0].x, (double)R.out_x * (1 / scale)) && same_double(res[0][0].y, (double)R.out_y * (1 / scale)));
   verif_reach();
 }
 
